@@ -198,6 +198,62 @@ package engine
 //@   ensures [C03] positions-come-from-the-match: rtype(v) == gt("PosType") && kind(v) != 22 ==> m == boxed(mk("github.com/uber-go/gopatch/internal/engine.PosReplacer", c.fset, rvIface(v).val))
 //@   ensures-assumed c.meta == nil ==> m == compiledR(c.fset, v, c.patchStart, c.patchEnd)
 
+// `for ... { body }` (C04): matches any for / range statement whose body matches the body pattern; the
+// header of the matched loop is recorded under the elision's position so that it can be reproduced.
+//@ func (m ForDotsMatcher) Match(got, d, r) (d1, ok)
+//@   requires typing: m.Body != nil
+//@   requires typing: gt("ForStmtPtrType") != nil && gt("RangeStmtPtrType") != nil
+//@   requires typing: rtype(got) == gt("ForStmtPtrType") || rtype(got) == gt("RangeStmtPtrType") ==> lastNamed(rtype(relem(got)), "Body", numfield(rtype(relem(got)))) >= 0 && forall k int {tfieldName(rtype(relem(got)), k)} :: 0 <= k && k < numfield(rtype(relem(got))) && tfieldName(rtype(relem(got)), k) == "Body" ==> implements(rvIface(fld(relem(got), k)), "go/ast.Node")
+//@   unfold MatchOK(boxed(m), got, dmap(d), r) == ((rtype(got) == gt("ForStmtPtrType") || rtype(got) == gt("RangeStmtPtrType")) && MatchOK(m.Body, forBodyV(got), forPushedD(m.Dots, got, dmap(d), r), forBodyR(got)))
+//@   unfold MatchD(boxed(m), got, dmap(d), r) == MatchD(m.Body, forBodyV(got), forPushedD(m.Dots, got, dmap(d), r), forBodyR(got))
+//@   unfold-post forPushedD(m.Dots, got0, dmap(d), r0) == dmap(ret("data.WithValue", 0))
+//@   unfold lastNamed(rtype(relem(got0)), "Body", 0) == 0 - 1
+//@   at call engine.Matcher.Match assert [C04] the-body-pattern-is-matched-against-the-loop-body: arg0 == m.Body && arg1 == forBodyV(got0) && arg3 == forBodyR(got0)
+//@   at call data.WithValue assert [C04] the-header-is-recorded-under-this-elision: arg0 == d && arg1 == boxed(as("github.com/uber-go/gopatch/internal/engine.forDotsKey", m.Dots))
+//@   loop 0
+//@     unfold lastNamed(rtype(relem(got0)), "Body", i + 1) == ite(tfieldName(rtype(relem(got0)), i) == "Body", i, lastNamed(rtype(relem(got0)), "Body", i))
+//@     invariant 0 <= i && i <= numfield(rtype(relem(got0)))
+//@     invariant lastNamed(rtype(relem(got0)), "Body", i) >= 0 ==> bodyField.Idx == lastNamed(rtype(relem(got0)), "Body", i) && bodyField.Value == fld(relem(got0), bodyField.Idx) && bodyFieldRegion == nodeRegionOf(rvIface(bodyField.Value))
+//@     invariant otherFields.arr == 0 || fresh(otherFields.arr)
+//@     decreases numfield(rtype(relem(got0))) - i
+
+// The loop header recorded for the associated '-' elision is reproduced field by field around the
+// regenerated body; a for-elision without a recorded header is an error, never an empty loop.
+//@ func (r ForDotsReplacer) Replace(d, cl, pos) (v, err)
+//@   requires typing: r.Body != nil
+//@   at call data.Lookup assert [C04,C13] the-header-recorded-for-the-associated-elision-is-used: arg0 == d && arg1 == boxed(as("github.com/uber-go/gopatch/internal/engine.forDotsKey", ite(has(r.dotAssoc, r.Dots), r.dotAssoc[r.Dots], 0)))
+//@   ensures [C04] no-recorded-header-is-an-error: dmap(d)[boxed(as("github.com/uber-go/gopatch/internal/engine.forDotsKey", ite(has(r.dotAssoc, r.Dots), r.dotAssoc[r.Dots], 0)))] == nil ==> err != nil
+//@   at call reflect.New assert [C04] a-loop-of-the-matched-kind: arg0 == fd.Type
+//@   at call engine.Replacer.Replace assert [C04] the-body-is-regenerated-from-the-same-bindings: arg0 == r.Body && arg1 == d && arg3 == pos
+//@   at call (reflect.Value).Set#1 assert [C04,C05] every-other-field-of-the-header-is-copied-back: arg0 == fld(relem(ret("reflect.New", 0)), f.Idx) && arg1 == f.Value
+//@   at call (reflect.Value).Set#0 assert [C04] the-regenerated-body-goes-into-the-body-field: arg0 == fld(relem(ret("reflect.New", 0)), fd.BodyFieldIdx) && arg1 == body
+//@   ensures [C04] the-rebuilt-loop-is-returned: err == nil ==> v == raddr(relem(ret("reflect.New", 0)))
+
+// A statement-list pattern (C01, C05): matches a block, case clause or comm clause whose statements
+// match the (elision-framed) statement pattern; nothing else. The container's other fields are recorded so
+// that the container can be rebuilt around the rewritten statements.
+//@ func (m stmtSliceContainerMatcher) Match(v, d, r) (d1, ok)
+//@   requires typing: m.Stmts != nil
+//@   requires typing: gt("BlockStmtType") != nil && gt("CaseClauseType") != nil && gt("CommClauseType") != nil && gt("BlockStmtType") != gt("CaseClauseType") && gt("BlockStmtType") != gt("CommClauseType")
+//@   requires typing: telem(rtype(v)) != nil && relem(v) == relem(v) && rtype(relem(v)) == telem(rtype(v))
+//@   requires typing: tkind(rtype(v)) == 22 && (telem(rtype(v)) == gt("BlockStmtType") || telem(rtype(v)) == gt("CaseClauseType") || telem(rtype(v)) == gt("CommClauseType")) ==> lastNamed(telem(rtype(v)), stmtFieldName(telem(rtype(v))), numfield(telem(rtype(v)))) >= 0
+//@   unfold MatchOK(boxed(m), v, dmap(d), r) == (tkind(rtype(v)) == 22 && (telem(rtype(v)) == gt("BlockStmtType") || telem(rtype(v)) == gt("CaseClauseType") || telem(rtype(v)) == gt("CommClauseType")) && MatchOK(m.Stmts, stmtsV(v), stmtPushedD(v, dmap(d), r), stmtR(v, r)))
+//@   unfold MatchD(boxed(m), v, dmap(d), r) == MatchD(m.Stmts, stmtsV(v), stmtPushedD(v, dmap(d), r), stmtR(v, r))
+//@   unfold-post stmtPushedD(v0, dmap(d), r0) == dmap(ret("data.WithValue", 0))
+//@   at call engine.Matcher.Match set handedRegion = arg3
+//@   unfold-post stmtR(v0, r0) == handedRegion
+//@   assigns handedRegion
+//@   unfold lastNamed(telem(rtype(v0)), stmtFieldName(telem(rtype(v0))), 0) == 0 - 1
+//@   at call engine.Matcher.Match assert [C01,C05] the-statement-pattern-is-matched-against-the-statements-of-the-container: arg0 == m.Stmts && arg1 == stmtsV(v0)
+//@   at call data.WithValue assert [C05] the-container-is-recorded: arg0 == d && arg1 == boxed(global("github.com/uber-go/gopatch/internal/engine.stmtListKey"))
+//@   loop 0
+//@     unfold lastNamed(telem(rtype(v0)), stmtFieldName(telem(rtype(v0))), i + 1) == ite(tfieldName(telem(rtype(v0)), i) == stmtFieldName(telem(rtype(v0))), i, lastNamed(telem(rtype(v0)), stmtFieldName(telem(rtype(v0))), i))
+//@     invariant 0 <= i && i <= numfield(telem(rtype(v0)))
+//@     invariant stmtField == stmtFieldName(telem(rtype(v0)))
+//@     invariant lastNamed(telem(rtype(v0)), stmtFieldName(telem(rtype(v0))), i) >= 0 ==> stmtsField.FieldIdx == lastNamed(telem(rtype(v0)), stmtFieldName(telem(rtype(v0))), i) && stmtsField.Value == fld(relem(v0), stmtsField.FieldIdx)
+//@     invariant fields.arr == 0 || fresh(fields.arr)
+//@     decreases numfield(telem(rtype(v0))) - i
+
 // ---- elision (C04) ---------------------------------------------------------------------------------
 
 //@ func sectionRegion(items, r, start, end) (r1)
@@ -792,6 +848,11 @@ package engine
 // than its statement list copied from the matched node (labels, case lists, positions are preserved).
 //@ func (r stmtSliceContainerReplacer) Replace(d, cl, pos) (v, err)
 //@   requires r.Stmts != nil
+//@   at call data.Lookup assert [C05] the-recorded-container-is-used: arg0 == d && arg1 == boxed(global("github.com/uber-go/gopatch/internal/engine.stmtListKey"))
+//@   ensures [C05] no-recorded-container-is-an-error: dmap(d)[boxed(global("github.com/uber-go/gopatch/internal/engine.stmtListKey"))] == nil ==> err != nil
+//@   at call reflect.New assert [C05] a-container-of-the-matched-kind: arg0 == sd.Type
+//@   at call engine.Replacer.Replace assert [C03,C05] the-statements-are-regenerated-from-the-same-bindings: arg0 == r.Stmts && arg1 == d
+//@   ensures [C05] the-rebuilt-container-is-returned: err == nil ==> v == raddr(relem(ret("reflect.New", 0)))
 //@   at call (reflect.Value).Set set fieldsSet = fieldsSet + 1
 //@   assigns group(ast), fieldsSet
 //@   ensures [C05] every-other-field-is-copied-back: err == nil ==> fieldsSet == old(fieldsSet) + len(sd.OtherFields) + 1
